@@ -117,3 +117,30 @@ Proof.
   split; unfold call_fn; ssimpl; rewrite ?T1; ssimpl; reflexivity.
 Qed.
 
+
+(* String::retain: the guard's destructor sets the length to idx - del_bytes; a kept character is
+   moved only if something was deleted before it, from idx down to idx - del_bytes, ch_len bytes *)
+Definition vguard (base idx del : N) : val :=
+  VRec [("s", VRec [("vec", VRec [("as_mut_ptr", VN base)])]); ("idx", VN idx); ("del_bytes", VN del)].
+Lemma src_string_retain_ok base idx del w f : del <= idx -> base + idx < W ->
+  call_fn src_fns [("self", vguard base idx del)] "string_retain_guard_len" [f] = Ret (VN (idx - del)) /\
+  let en := [("guard", vguard base idx del); ("ch", vch w)] in
+  call_fn src_fns en "string_retain_must_move" [f] = Ret (VB (0 <? del)) /\
+  call_fn src_fns en "string_retain_copy_src" [f] = Ret (VN (base + idx)) /\
+  call_fn src_fns en "string_retain_copy_dst" [f] = Ret (VN (base + (idx - del))) /\
+  call_fn src_fns en "string_retain_copy_len" [f] = Ret (VN w).
+Proof.
+  intros Hd Hb.
+  assert (T1 : (del <=? idx) = true) by (apply N.leb_le; exact Hd).
+  assert (T2 : (base + idx <? W) = true) by (apply N.ltb_lt; exact Hb).
+  assert (T3 : (base + (idx - del) <? W) = true) by (apply N.ltb_lt; lia).
+  repeat match goal with |- _ /\ _ => split | |- let _ := _ in _ => intros en; unfold en end;
+    unfold call_fn;
+    cbv beta iota zeta delta
+      [call_fn eval lookup bind finish meth0 meth1 arith fn_params fn_body src_fns vguard vch
+       String.eqb Ascii.eqb Bool.eqb List.app List.combine List.length
+       Datatypes.app Datatypes.length List.rev Nat.eqb FUEL_SEM fst snd];
+    rewrite ?T1;
+    cbv beta iota zeta delta [bind meth1 lookup String.eqb Ascii.eqb Bool.eqb];
+    rewrite ?T2, ?T3; reflexivity.
+Qed.
